@@ -287,6 +287,41 @@ def cloneWrapper {α} (loadOwn : Bool) (isWrapped : String → Bool) (fresh self
   fresh.map fun kt =>
     if isWrapped kt.1 || loadOwn then (kt.1, (lookup self kt.1).getD kt.2) else kt
 
+/-! ### the mutation context: configuration vs. built network
+
+  `MutationContext.__enter__` increments `_mutation_depth`; `__exit__` decrements it and, when it is
+  back at 0 (outermost call), re-creates the torch network from the current configuration
+  (`recreate_network`) - also when the body raised, the exception propagates afterwards.
+  Configurations are abstract (a version counter): `cfg` is what `init_dict` describes (and what
+  `clone()` / `reinit_from_mutated` rebuild from), `built` is what the live network was built from.
+  Every constructor option that is not an architecture hyperparameter is part of both: re-creation
+  copies the *whole* configuration.  `early = true` is the faulty variant that returns from
+  `__exit__` before the bookkeeping when an exception escapes. -/
+
+structure Ctx where
+  depth : Nat
+  cfg   : Nat
+  built : Nat
+deriving Repr, DecidableEq
+
+/-- one outermost mutation call: did the body change the configuration, did an exception escape -/
+structure Ev where
+  changes : Bool
+  raises  : Bool
+deriving Repr, DecidableEq
+
+def Ctx.call (early : Bool) (c : Ctx) (e : Ev) : Ctx :=
+  let c1 : Ctx := { c with depth := c.depth + 1, cfg := if e.changes then c.cfg + 1 else c.cfg }
+  if e.raises && early then c1
+  else
+    let d := c1.depth - 1
+    if d = 0 then { c1 with depth := 0, built := c1.cfg } else { c1 with depth := d }
+
+def Ctx.run (early : Bool) (c : Ctx) (es : List Ev) : Ctx := es.foldl (Ctx.call early) c
+
+/-- the live network is the one `init_dict` describes -/
+def Ctx.inSync (c : Ctx) : Bool := c.depth == 0 && c.built == c.cfg
+
 end Preserve
 
 /-! ### line protocol -/
@@ -385,6 +420,17 @@ def step (s : IOState) : List String → IOState × String
     match parseShape? ws with
     | some (sh, []) => (s, toString (numel sh))
     | _ => (s, "bad-op")
+  -- mutation context bookkeeping: `ctx <early 0|1> <ev>…`, ev = o0 | o1 | r0 | r1 (ok/raise, cfg changed 0/1)
+  | "ctx" :: early :: evs =>
+    let parseEv : String → Option Ev := fun w =>
+      match w with
+      | "o0" => some ⟨false, false⟩ | "o1" => some ⟨true, false⟩
+      | "r0" => some ⟨false, true⟩ | "r1" => some ⟨true, true⟩
+      | _ => none
+    match early, allSome (evs.map parseEv) with
+    | "0", some es => let c := Ctx.run false ⟨0, 0, 0⟩ es; (s, s!"{c.depth} {showBool c.inSync}")
+    | "1", some es => let c := Ctx.run true ⟨0, 0, 0⟩ es; (s, s!"{c.depth} {showBool c.inSync}")
+    | _, _ => (s, "bad-op")
   -- strict load_state_dict of the registered `old` entries into the registered `tgt` entries
   | ["load"] =>
     if s.tgt == s.old then (s, "ok") else (s, "reject")
